@@ -57,7 +57,7 @@ def run(module, cfg=None, *, env=None, workers=1, timeout=900, simulate=None, de
     cfg = cfg or module + '.cfg'
     own = scratch is None
     meta = tempfile.mkdtemp(prefix='tlcmeta_', dir=scratch)
-    cmd = ['java', '-XX:+UseParallelGC', '-Xmx' + heap, '-cp', JAR, 'tlc2.TLC', '-metadir', meta, '-noGenerateSpecTE',
+    cmd = ['java', '-XX:+UseParallelGC', '-Xmx' + heap, '-Djava.io.tmpdir=' + meta, '-cp', JAR, 'tlc2.TLC', '-metadir', meta, '-noGenerateSpecTE',
            '-workers', str(workers), '-config', cfg]
     if simulate:
         cmd += ['-simulate', simulate]
